@@ -266,6 +266,27 @@ def codec_hook(ctx: Ctx, sink: Sink, enter: Callable[[str, List[Any]], bool], ch
                 return r
         if not isinstance(e, ast.Call):
             return NotImplemented
+        if isinstance(e.func, (ast.Call, ast.Subscript)):
+            # a codec routine *selected* for a type (a dispatcher / table look-up on the type) and then applied to the reader /
+            # writer and that type: for an opaque type the selection answered with a token naming the type - applying it is the
+            # hand-over of that type to its codec, as if the routine had been called by name
+            try:
+                sel = f.fold(e.func)
+            except Unfoldable:
+                sel = NotImplemented
+            if isinstance(sel, tuple) and len(sel) == 3 and isinstance(sel[0], str) and sel[0].endswith("-OF"):
+                args_ = [f.fold(a) for a in e.args]
+                io_ = next((a for a in args_ if isinstance(a, (AWriter, AReader))), None)
+                ty_ = next((a for a in args_ if isinstance(a, Sym) and hasattr(a, "_isa_") and "SerializableType" in a._isa_), None)
+                if io_ is not None and ty_ is not None and getattr(ty_, "_opaque_", False) and ty_.name == sel[1]:
+                    val_ = next((a for a in args_ if a is not io_ and a is not ty_), None)
+                    if isinstance(io_, AWriter):
+                        sink.emit(("EMIT", io_.name, ty_.name, _x(val_)))
+                        return None
+                    k_ = sink.fresh("v")
+                    sink.emit(("EMIT", io_.name, ty_.name, k_))
+                    return ("VALUE", k_)
+            return NotImplemented
         name = dotted(e.func) or ""
         last = name.split(".")[-1]
         if last == "_BitWriter" and not e.args:
@@ -416,7 +437,7 @@ def explore_codec(ctx: Ctx, fname: str, make_args: Callable[[Sink], Tuple[List[A
             return sink.events, None, ex.cls_name
 
     try:
-        runs = explore(run, max_runs=256)
+        runs = explore(run, max_runs=1024)
     except (Unfoldable, NotLayout) as ex:
         raise AnalysisError("_serdes.%s: cannot evaluate over the abstract codec model: %s" % (fname, ex))
     return [CodecRun(a, ev, r, raised) for a, (ev, r, raised) in runs]
